@@ -401,7 +401,8 @@ def run_api(
                     if stop_after is not None and idx == stop_after:
                         result.stop_seq = next_seq()
                         stream.stop()
-                    if interrupt_after is not None and idx == interrupt_after:
+                    if interrupt_after is not None and idx == interrupt_after and type(event).__name__ != "EngineFinished":
+                        # (after the final event there is no engine code left to interrupt)
                         result.stop_seq = next_seq()
                         pending_throw = True
                     idx += 1
